@@ -243,7 +243,8 @@ def step (st : St) (_n : Nat) (line : String) : St × List Finding :=
         | [_, _, _, ty, sp, dp] => ty = 254 ∧ sp = 2152 ∧ dp = 2152
         | _ => false
       let fs := replyFindings obs out.reply ++
-        (if obsMarkers != out.markers then [⟨"model", s!"end markers {repr obsMarkers}, model {repr out.markers}"⟩] else []) ++
+        (if obsMarkers != out.markers then [⟨"C14", s!"end markers emitted {repr obsMarkers}, the flagged updates of known FARs call for {repr out.markers} (old tunnel of each, in order)"⟩,
+                                              ⟨"model", s!"end markers {repr obsMarkers}, model {repr out.markers}"⟩] else []) ++
         (if !wellFormedMarkers then [⟨"C14", "an end marker is not a GTP-U End Marker (type 254) on UDP 2152"⟩] else [])
       let stored := ((st.w.conn a).sessions.find? (·.lseid = req.seid))
       let parts := (if req.cpFseid.isSome then ["cpf"] else []) ++ (if req.createPdrs.isEmpty then [] else ["cp"]) ++
